@@ -23,6 +23,30 @@ pub fn run(ctx: &Ctx) -> Report {
         let st = explore(&ctx.pool, jobs, j);
         rep.part(&name, st, serde_json::json!({"policies": ["P0", "P1"], "engine": "xsup"}));
     }
+    // the same tree under the usual descriptor limit, few and many workers, producers far ahead or everybody in
+    // step: whether the copy succeeds must not depend on the worker count or on who runs first
+    {
+        use crate::scen::Entry;
+        let mut jobs = vec![];
+        let mut tree = vec![Entry::dir("src")];
+        for i in 0..600 {
+            tree.push(Entry::file(&format!("src/f{:04}", i), "x"));
+        }
+        for d in drivers() {
+            for w in if ctx.quick() { vec!["1", "4"] } else { vec!["1", "2", "4", "16"] } {
+                let mut s = Scenario::new(&format!("limit1024-{}-w{}", d, w), tree.clone(), &["-r", "--driver", d, "-w", w, "src", "dst"]);
+                s.nofile = Some(1024);
+                let s = std::sync::Arc::new(s);
+                let producer_first: Vec<String> = if d == "parblock" { vec!["0.1.2".into(), "0.1.1".into(), "0.1".into(), "0".into(), "0.1.1.*".into()] } else { vec!["0.1.1".into(), "0.1".into(), "0".into()] };
+                for mut sp in [RunSpec::base(Policy::P0), RunSpec::base(Policy::P1), RunSpec::base(Policy::Prio(producer_first.clone())), RunSpec::base(Policy::PrioRR(producer_first.clone())), RunSpec::base(Policy::RR)] {
+                    sp.step_limit = 5_000_000;
+                    jobs.push((s.clone(), sp, 0usize));
+                }
+            }
+        }
+        let st = explore(&ctx.pool, jobs, j);
+        rep.part("600 files under RLIMIT_NOFILE=1024 x workers x {P0, P1, producers first, producers first then round robin, round robin}", st, serde_json::json!({}));
+    }
     rep.assumptions = vec![
         "pre-emption only at visible system calls and hook markers (DESIGN 3.1.7); crossbeam-channel, blocking-threadpool and Arc internals trusted".into(),
         "reference tree from the cp mapping rule; directory timestamps not compared (xcp does not copy them)".into(),
